@@ -109,7 +109,7 @@ def tlc_ok(out, stats, what):
         raise Broken("TLC failed on %s (rc=%s):\n%s" % (what, stats["rc"], out[-3000:]))
 
 
-VERDICT_RE = re.compile(r'<<"VERDICT", (-?\d+), "(C\d+)", "([^"]*)">>')
+VERDICT_RE = re.compile(r'^"VERDICT (-?\d+) (C\d+) (.*)"$', re.M)
 JUDGED_RE = re.compile(r'<<"JUDGED", (\d+), (\d+)>>')
 
 
@@ -151,8 +151,10 @@ def judge(work, module, trace, env_file, open_findings=(), shards=None, tag="j",
             judged += int(m.group(1))
             gen += st["generated"]
             dist += st["distinct"]
-            for v in VERDICT_RE.finditer(out):
-                verdicts.append((int(v.group(1)), v.group(2), v.group(3)))
+            mine = [(int(v.group(1)), v.group(2), v.group(3)) for v in VERDICT_RE.finditer(out)]
+            if int(m.group(2)) > 0 and not mine:
+                raise Broken("the judge counted %s rejected events but no verdict line was parsed:\n%s" % (m.group(2), out[-1500:]))
+            verdicts += mine
     if judged != total:
         raise Broken("judged %d of %d events" % (judged, total))
     return verdicts, {"events": total, "generated": gen, "distinct": dist}
